@@ -91,3 +91,7 @@ Definition show_mev (e : mev) : string :=
 Definition show_mevs (l : list mev) : string := sjoin ";" (map show_mev l).
 Definition show_seqs (r : result (list seq)) : string := show_res (fun l => sjoin "#" (map show_seq l)) r.
 Definition ev (k : mkind) (c a b : Z) (key : string) (dt : Z) : mev := mkev k c a b key dt.
+
+(* a call without a state dictionary: tokens only *)
+Definition tokenise_ns (c : cfg) (tracks : list (list msg)) : string :=
+  show_res (fun x => show_toks (fst x)) (tokenise c (tstate0 c) tracks).
